@@ -17,6 +17,19 @@ def _tlc_stage(run, vc, module, cfg, needed, label=None, timeout=3000):
     return r, False
 
 
+def _deep(run, vc, module, cfg):
+    """thorough tier only: the same model two adversary moves deep, checked by TLC alone (no vectors are emitted:
+    the depth-1 transitions are the ones replayed)"""
+    if run.tier != "thorough":
+        return False
+    r = vc.tlc(module, cfg, run.prop + "_" + cfg.replace(".cfg", ""), timeout=7200)
+    run.add_tlc(r, cfg + " (TLC only, adversary depth 2)")
+    if r["violated"]:
+        vc.spec_violation(run, r, module, cfg)
+        return True
+    return False
+
+
 def _prep(run, vc, build="release", feature="blst"):
     vc.log("[%s] building harness from /repo working tree" % run.prop)
     vc.build_harness(build, feature)
@@ -181,6 +194,8 @@ def c11(run, vc):
     r, bad = _tlc_stage(run, vc, "MC_SignCrypt", cfg, ["Seal", "IsValid", "Decrypt"], timeout=7200)
     if bad:
         return run.finish()
+    if _deep(run, vc, "MC_SignCrypt", "MC_SignCrypt_deep.cfg"):
+        return run.finish()
     vecs = [v for v in r["vectors"] if v["act"] in ("Seal", "IsValid", "Decrypt")]
     outs = {v["expect"].get("out") for v in vecs if v["act"] == "Decrypt"}
     if not {"Some", "None", "NotOriginal"} <= outs:
@@ -219,6 +234,8 @@ def c13(run, vc):
     cfg = "MC_TimeLock_%s.cfg" % tier
     r, bad = _tlc_stage(run, vc, "MC_TimeLock", cfg, [("TLSeal", "Ok"), ("TLSeal", "Err"), "TLDecrypt"], timeout=7200)
     if bad:
+        return run.finish()
+    if _deep(run, vc, "MC_TimeLock", "MC_TimeLock_deep.cfg"):
         return run.finish()
     vecs = r["vectors"]
     outs = {}
